@@ -317,7 +317,7 @@ def record(job, neutral=frozenset()):
     res = {"out": out, "ps": passed_rows(passed), "rp": [], "npassed": len(passed)}
     if not neutral and job["lists"] == "default":
         try:
-            res["observed"] = observe(first_parse(job["src"], job["cx1"], job["scr1"], job["tb"]), job["tb"], job["kw"])
+            res["observed"] = observe(tree, job["tb"], job["kw"])         # (walkers build fresh tokens: the tree is not consumed)
         except Exception as e:
             return {"skip": "serialize:" + type(e).__name__}
     for cx, scr, tb2 in job["rps"]:
